@@ -374,3 +374,67 @@ func c17StructMissing(c *wk.Ctx) {
 		}
 	}
 }
+
+// c17ForeignRefs: references into ANOTHER namespace (linked with ApplyNamespace). A rejection below such a reference
+// names the elements of the input on the way to the bad leaf, exactly as below a reference into the scope's own
+// objects: a namespace or object ID is not an element of the input.
+func c17ForeignRefs(c *wk.Ctx) {
+	prop := func(t schema.Type, req bool) *schema.PropertySchema {
+		return schema.NewPropertySchema(t, nil, req, nil, nil, nil, nil, nil)
+	}
+	conn := func() *schema.ObjectSchema {
+		return schema.NewObjectSchema("Conn", map[string]*schema.PropertySchema{
+			"host": prop(schema.NewStringSchema(schema.IntPointer(1), nil, nil), true),
+			"port": prop(schema.NewIntSchema(schema.IntPointer(0), schema.IntPointer(65535), nil), false)})
+	}
+	for _, foreign := range []bool{true, false} {
+		ref := func() schema.Type {
+			if foreign {
+				return schema.NewNamespacedRefSchema("Conn", "pool", nil)
+			}
+			return schema.NewRefSchema("Conn", nil)
+		}
+		var t *schema.ScopeSchema
+		if p, site, msg, _ := wk.Guard(func() {
+			root := schema.NewObjectSchema("Root", map[string]*schema.PropertySchema{
+				"remote":  prop(ref(), false),
+				"remotes": prop(schema.NewListSchema(ref(), nil, nil), false),
+				"named":   prop(schema.NewMapSchema(schema.NewStringSchema(nil, nil, nil), ref(), nil, nil), false)})
+			if foreign {
+				t = schema.NewScopeSchema(root)
+				t.ApplyNamespace(map[string]*schema.ObjectSchema{"Conn": conn()}, "pool")
+			} else {
+				t = schema.NewScopeSchema(root, conn())
+			}
+		}); p {
+			c.Violation("C17:directed-shape-not-built:"+site, "the hand-written scope with namespaced references could not be built: "+msg, nil)
+			continue
+		}
+		descr := fmt.Sprintf("Root{remote, remotes: list, named: map} -> Conn{host!, port 0..65535}, reference into another namespace: %v", foreign)
+		good := func() map[string]any { return map[string]any{"host": "h", "port": int64(80)} }
+		for _, bad := range []struct {
+			kind string
+			leaf string
+			v    any
+		}{{"wrong-type", "port", "not-a-number"}, {"above-max", "port", int64(70000)}, {"below-min", "host", ""}, {"wrong-type", "host", []any{"x"}}} {
+			for _, where := range []string{"property", "list item", "map value"} {
+				b := good()
+				b[bad.leaf] = bad.v
+				var raw map[string]any
+				var path []string
+				switch where {
+				case "property":
+					raw, path = map[string]any{"remote": b}, []string{"remote", bad.leaf}
+				case "list item":
+					raw, path = map[string]any{"remotes": []any{good(), b}}, []string{"remotes", "1", bad.leaf}
+				default:
+					raw, path = map[string]any{"named": map[string]any{"first": good(), "second": b}}, []string{"named", "second", bad.leaf}
+				}
+				site := c17Site{path: path, chain: []string{"ref", map[bool]string{true: "foreign-namespace", false: "own-namespace"}[foreign]}, kind: bad.kind}
+				c17Judge(c, t, descr, raw, site, "Unserialize", func() error { _, err := t.Unserialize(gen.CopyRaw(raw)); return err })
+				c17Judge(c, t, descr, raw, site, "Validate", func() error { return t.Validate(gen.CopyRaw(raw)) })
+				c.Count("namespaced_reference_injections")
+			}
+		}
+	}
+}
